@@ -49,6 +49,8 @@ class Acc:
 
     MAX_OUTCOMES = 400000
     MAX_VIOL_PER_SUB = 6
+    MAX_KEYS = 300
+    MAX_RECORDS = 2500
     MAX_SAMPLES = 3
 
     def __init__(self, deadline=None):
@@ -67,6 +69,7 @@ class Acc:
         self.capped = []
         self.deadline = deadline
         self.errors = []
+        self._budget = {}
 
     # -- recording -------------------------------------------------------
     def outcome(self, key):
@@ -82,14 +85,19 @@ class Acc:
         if len(self.samples) < self.MAX_SAMPLES:
             self.samples.append(obj)
 
-    def want_violation(self, sub):
-        """True while the per-sub-oracle budget for detailed records is open."""
-        return self.viol_counts.get(sub, 0) < self.MAX_VIOL_PER_SUB
+    def want_violation(self, sub, key=""):
+        """True while the budget for detailed (shrunk) records of this (sub-oracle, cheap pre-classification key)
+        is open.  The key keeps numerous manifestations of one cause from crowding out a rarer one."""
+        k = (sub, key)
+        n = self._budget.get(k, 0)
+        if n >= self.MAX_VIOL_PER_SUB or (n == 0 and len(self._budget) >= self.MAX_KEYS):
+            return False
+        self._budget[k] = n + 1
+        return True
 
     def violation(self, sub, sig, witness, detail=""):
-        n = self.viol_counts.get(sub, 0)
-        self.viol_counts[sub] = n + 1
-        if n < self.MAX_VIOL_PER_SUB:
+        self.viol_counts[sub] = self.viol_counts.get(sub, 0) + 1
+        if len(self.violations) < self.MAX_RECORDS:
             self.violations.append(
                 {"sub": sub, "sig": sig, "witness": witness, "detail": str(detail)[:2000]})
 
